@@ -112,15 +112,38 @@ func inEnvelope(p geom.Coord, s seg) bool {
 }
 
 // c12CheckOne checks one presentation of a pair against the exact truth.
-func c12CheckOne(c *fw.Ctx, s1, s2 seg, tr c12truth, locate, nonRobust bool) bool {
+//
+// a, b, cc, d are the caller's coordinate slices for s1.a, s1.b, s2.a, s2.b; they are
+// shared by all presentations of the pair (and both strategies), as a caller
+// that keeps its segments and asks again would share them.  After the
+// non-robust call the robust question is asked once more on the same slices:
+// the answer must still be the exact one.
+func c12CheckOne(c *fw.Ctx, s1, s2 seg, a, b, cc, d geom.Coord, tr c12truth, locate, nonRobust bool) bool {
 	c.SetInput(c12Desc(s1, s2))
-	mk := func(p [2]float64) geom.Coord {
-		if c.R.Chance(1, 3) {
-			return geom.Coord{p[0], p[1], math.NaN()}
-		}
-		return geom.Coord{p[0], p[1]}
+	if !c12Robust(c, s1, s2, a, b, cc, d, tr, locate, "") {
+		return false
 	}
-	a, b, cc, d := mk(s1.a), mk(s1.b), mk(s2.a), mk(s2.b)
+	if nonRobust {
+		var nr lineintersection.Result
+		if c.Guard("panic", func() {
+			nr = lineintersector.LineIntersectsLine(lineintersector.NonRobustLineIntersector{}, a, b, cc, d)
+		}) {
+			return false
+		}
+		c.Eval(1)
+		if nr.HasIntersection() != (tr.typ != lineintersection.NoIntersection) {
+			c.Fail("nonrobust-disagrees", "non-robust strategy HasIntersection() = %v, exact answer %s (%s)", nr.HasIntersection(), tr.typ, tr.class)
+			return false
+		}
+		c.Count("robust_asked_again_after_nonrobust")
+		if !c12Robust(c, s1, s2, a, b, cc, d, tr, locate, " (asked again on the same coordinate slices after a non-robust call)") {
+			return false
+		}
+	}
+	return true
+}
+
+func c12Robust(c *fw.Ctx, s1, s2 seg, a, b, cc, d geom.Coord, tr c12truth, locate bool, when string) bool {
 	var res lineintersection.Result
 	if c.Guard("panic", func() {
 		res = lineintersector.LineIntersectsLine(lineintersector.RobustLineIntersector{}, a, b, cc, d)
@@ -132,7 +155,7 @@ func c12CheckOne(c *fw.Ctx, s1, s2 seg, tr c12truth, locate, nonRobust bool) boo
 		return false
 	}
 	if res.Type() != tr.typ {
-		c.Fail("wrong-classification", "robust intersector says %s, exact arithmetic says %s (%s)", res.Type(), tr.typ, tr.class)
+		c.Fail("wrong-classification", "robust intersector says %s, exact arithmetic says %s (%s)"+when, res.Type(), tr.typ, tr.class)
 		return false
 	}
 	if res.HasIntersection() != (tr.typ != lineintersection.NoIntersection) {
@@ -199,19 +222,6 @@ func c12CheckOne(c *fw.Ctx, s1, s2 seg, tr c12truth, locate, nonRobust bool) boo
 			return false
 		}
 	}
-	if nonRobust {
-		var nr lineintersection.Result
-		if c.Guard("panic", func() {
-			nr = lineintersector.LineIntersectsLine(lineintersector.NonRobustLineIntersector{}, a, b, cc, d)
-		}) {
-			return false
-		}
-		c.Eval(1)
-		if nr.HasIntersection() != (tr.typ != lineintersection.NoIntersection) {
-			c.Fail("nonrobust-disagrees", "non-robust strategy HasIntersection() = %v, exact answer %s (%s)", nr.HasIntersection(), tr.typ, tr.class)
-			return false
-		}
-	}
 	return true
 }
 
@@ -220,18 +230,51 @@ func c12CheckPair(c *fw.Ctx, s1, s2 seg, locate, nonRobust bool) {
 	c.SetInput(c12Desc(s1, s2))
 	tr := c12Exact(s1, s2)
 	c.Count("class_" + tr.class)
+	mk := func(p [2]float64) geom.Coord {
+		if c.R.Chance(1, 3) {
+			return geom.Coord{p[0], p[1], math.NaN()}
+		}
+		return geom.Coord{p[0], p[1]}
+	}
+	co := [4]geom.Coord{mk(s1.a), mk(s1.b), mk(s2.a), mk(s2.b)}
+	// one pair in four writes some zero ordinates as -0 (the same number; the
+	// caller's bits must still be there after the calls)
+	if c.R.Chance(1, 4) {
+		for i := range co {
+			for k := 0; k < 2; k++ {
+				if co[i][k] == 0 && c.R.Bool() {
+					co[i][k] = math.Copysign(0, -1)
+					c.Count("ordinates_written_as_negative_zero")
+				}
+			}
+		}
+	}
+	var orig [4][2]uint64
+	for i := range co {
+		orig[i] = [2]uint64{math.Float64bits(co[i][0]), math.Float64bits(co[i][1])}
+	}
 	for k := 0; k < 8; k++ {
 		p1, p2 := s1, s2
+		i1a, i1b, i2a, i2b := 0, 1, 2, 3
 		if k&1 != 0 {
 			p1 = seg{p1.b, p1.a}
+			i1a, i1b = i1b, i1a
 		}
 		if k&2 != 0 {
 			p2 = seg{p2.b, p2.a}
+			i2a, i2b = i2b, i2a
 		}
 		if k&4 != 0 {
 			p1, p2 = p2, p1
+			i1a, i1b, i2a, i2b = i2a, i2b, i1a, i1b
 		}
-		if !c12CheckOne(c, p1, p2, tr, locate, nonRobust) {
+		if !c12CheckOne(c, p1, p2, co[i1a], co[i1b], co[i2a], co[i2b], tr, locate, nonRobust) {
+			return
+		}
+	}
+	for i := range co {
+		if math.Float64bits(co[i][0]) != orig[i][0] || math.Float64bits(co[i][1]) != orig[i][1] {
+			c.Fail("argument-modified", "the caller's coordinate %d was (%v %v) before the calls and is %s after them (compared bit for bit)", i, math.Float64frombits(orig[i][0]), math.Float64frombits(orig[i][1]), fw.Fs(co[i][:2]))
 			return
 		}
 	}
